@@ -261,7 +261,12 @@ func dumpModRef(w *World, name string) {
 // regionRoots: functions whose single-call-site helpers are folded into them. The query handler is the
 // one place where "extract this switch case into a method" is a likely, behaviour-preserving edit that
 // must not change any verdict.
-var regionRoots = []string{"(*Server).handleQuery"}
+var regionRoots = []string{
+	"(*Server).handleQuery", "(*Server).processPacket", "(*Server).Query",
+	"(*Server).AnnounceTraversal", "filterPeers", "(*Server).setReturnNodes", "(*Server).writeToNode",
+	"(*traversal.Operation).startQuery", "(*traversal.Operation).run", "(*traversal.Operation).addClosest",
+	"(*bep44.Wrapper).Put", "(*bep44.Wrapper).Get", "(k-nearest-nodes.Type).Push",
+}
 
 var singleSite = map[*ssa.Function]ssa.Instruction{}
 
